@@ -261,33 +261,32 @@ def check_strans_writer(ctx, db):
 
 def check_enum_tables(ctx, db):
     vals = {c['v']: c['n'] for c in db.enum('gdstk::EndType')['consts']}
-
-    def wt(fn):
-        sw = tables.switches_on(fn, 'EndType')[0]
-        t = {}
-        for labels, stmts, top in tables.switch_arms(sw):
-            v = next((x.child('rhs').cv for s in stmts for x in s.walk() if is_assign(x)), None)
-            for l in labels:
-                t[vals.get(l, l)] = v
-        return t
-    a, b = wt(db.fn('gdstk::FlexPath::to_gds')), wt(db.fn('gdstk::RobustPath::to_gds'))
+    from . import C07
+    from .. import minieval
+    a, b = C07.pathtype_table(db, db.fn('gdstk::FlexPath::to_gds')), C07.pathtype_table(db, db.fn('gdstk::RobustPath::to_gds'))
     f = db.fn('gdstk::read_gds')
     sw = C03.record_switch(f)
     names = {c['v']: c['n'] for c in db.enum('gdstk::GdsiiRecord')['consts']}
     arm = next((stmts for labels, stmts, top in tables.switch_arms(sw) if any(names.get(l) == 'PATHTYPE' for l in labels)), None)
-    inner = next((s for st in arm for s in st.walk() if s.k == 'SwitchStmt'), None)
+    if arm is None:
+        raise AnalysisBroken('read_gds: no PATHTYPE arm')
+    # the reader's PATHTYPE -> EndType table: the arm is evaluated for every code a writer can produce (and one unknown code)
     rt = {}
-    for labels, stmts, top in tables.switch_arms(inner):
-        v = next((norm(x.child('rhs').text()).split('::')[-1] for s in stmts for x in s.walk() if is_assign(x)), None)
-        for l in labels:
-            rt[l] = v
-    full = {}
-    for e in vals.values():
-        code = a.get(e, a.get('default'))
-        full[e] = rt.get(code, rt.get('default'))
+    for code in sorted(set(a.values()) | set(b.values()) | {3}):
+        mi = minieval.Mini(db, member_store=True)
+        env = {'data16': minieval.Ptr([code], 0), 'path': 1}
+        try:
+            for st in arm:
+                mi.run(st, env)
+        except minieval._Break:
+            pass
+        got = [v for k, v in mi.members.items() if k.endswith('end_type')]
+        rt[code] = vals.get(got[0]) if len(got) == 1 else None
+    ctx.explored['valuations'] += len(rt) + len(a) + len(b)
+    full = {e: rt.get(a.get(e)) for e in vals.values()}
     want = {'Flush': 'Flush', 'Round': 'Round', 'HalfWidth': 'HalfWidth', 'Extended': 'Extended', 'Smooth': 'Round'}
-    ok = a == b and all(full.get(k) == v for k, v in want.items()) and a.get('HalfWidth') == 2 and a.get('Extended') == 4 and a.get('Round') == 1 and a.get('default') == 0
-    ctx.check(ok, 'R-TABLE', 'EndType<->PATHTYPE', inner.loc(), 'PATHTYPE codes 0/1/2/4 round-trip Flush/Round/HalfWidth/Extended; Smooth degrades to Round', 'writer %s / %s, reader %s, composed %s' % (a, b, rt, full))
+    ok = a == b and all(full.get(k) == v for k, v in want.items()) and a == C07.PATHTYPE_SPEC
+    ctx.check(ok, 'R-TABLE', 'EndType<->PATHTYPE', arm[0].loc(), 'PATHTYPE codes 0/1/2/4 round-trip Flush/Round/HalfWidth/Extended; Smooth degrades to Round', 'writer %s / %s, reader %s, composed %s' % (a, b, rt, full))
     # STRANS bit and the guard that decides whether STRANS/MAG/ANGLE are written at all
     check_strans_writer(ctx, db)
     arm = next((stmts for labels, stmts, top in tables.switch_arms(sw) if any(names.get(l) == 'STRANS' for l in labels)), None)
@@ -362,26 +361,123 @@ def check_units(ctx, db):
     ctx.check(len(xy) >= 12, 'R-UNIT', 'read_gds/factor-x-int', f.loc(), 'loaded coordinates, widths and extensions are factor x integer (%d sites)' % len(xy))
 
 
+GDS_ELEMENT_HEADERS = {0x0800: 'BOUNDARY', 0x0900: 'PATH', 0x0A00: 'SREF', 0x0B00: 'AREF', 0x0C00: 'TEXT'}
+
+
+def offsets_loop(f):
+    """(array key, loop node, Loop) of the loop that visits every offset produced by Repetition::get_offsets exactly once,
+    found through the affine loop summary (any loop form), or raises AnalysisBroken"""
+    from .. import loops, deps
+    from ..linear import lin_add
+    go = [c for c in f.walk() if c.k == 'CXXMemberCallExpr' and (c.callee or '').endswith('Repetition::get_offsets')]
+    if len(go) != 1:
+        raise AnalysisBroken('%s: expected one Repetition::get_offsets call, found %d' % (f.qn, len(go)))
+    ak = lvalue_key(_strip_casts(go[0].args[0]))
+    D = deps.Deps(f)
+    found = []
+    for L in loops.loops_of(f):
+        if L.id < go[0].id:
+            continue
+        lp = loops.Loop(f, L)
+        trip = lp.trip()
+        if trip is None or lin_add(trip, {ak + '.count': 1}, -1):
+            continue
+        accs = []
+        for x in L.walk():
+            ptr = None
+            if x.k == 'UnaryOperator' and x.op == '*':
+                ptr = x.child('sub')
+            elif x.k == 'ArraySubscriptExpr':
+                ptr = x.child('base') or x.c[0]
+            elif x.k == 'MemberExpr' and x.arrow:
+                ptr = x.child('base')
+            elif x.k == 'CXXOperatorCallExpr' and x.op == '[]' and lvalue_key(_strip_casts(x.args[0])) == ak:
+                accs.append((x, lp.addr(x)))
+                continue
+            if ptr is None:
+                continue
+            r = D.root_of_ptr(ptr)
+            if r is not None and r[0] == ak:
+                accs.append((x, lp.addr(x) if x.k != 'MemberExpr' else lp.lin(ptr, x)))
+        if not accs:
+            continue
+        ok = True
+        for x, lin in accs:
+            if lin is None:
+                ok = False
+                break
+            rest = lin_add(lin, {ak + '.items': 1}, -1)
+            b = rest.pop(loops.K, 0)
+            c = rest.pop(1, 0)
+            if rest or not ((b == 1 and c == 0) or (b == 2 and c in (0, 1))):
+                ok = False
+        found.append((L, lp, ok, accs))
+    good = [t for t in found if t[2]]
+    if len(good) != 1:
+        bad = [t for t in found if not t[2]]
+        if bad:
+            return ak, bad[0][0], bad[0][1], 'in the loop at %s the offsets are addressed as %s: iteration k does not use offset k' % (bad[0][0].loc(), [a[1] for a in bad[0][3]][:3])
+        raise AnalysisBroken('%s: no counting loop over the %s offsets recognised' % (f.qn, 'repetition'))
+    return ak, good[0][0], good[0][1], None
+
+
 def check_offsets(ctx, db):
-    for qn, pats in (('gdstk::Polygon::to_gds', [r'\(offset_x \+ p->x\)', r'\(offset_y \+ p->y\)']), ('gdstk::Label::to_gds', [r'\(this->origin\.x \+ offset_p->x\)', r'\(this->origin\.y \+ offset_p->y\)']),
-                     ('gdstk::Reference::to_gds', [r'\(this->origin\.x \+ offset_p->x\)', r'\(this->origin\.y \+ offset_p->y\)']),
-                     ('gdstk::FlexPath::to_gds', [r'\(\(\*\(p\+\+\)\) \+ offset_x\)', r'\(\(\*\(p\+\+\)\) \+ offset_y\)']), ('gdstk::RobustPath::to_gds', [r'\(\(\*\(p\+\+\)\) \+ offset_x\)', r'\(\(\*\(p\+\+\)\) \+ offset_y\)'])):
+    """One element per repetition offset, and offset k is added - component by component, before the scaling - into every
+    coordinate of element k. Decided from the affine summary of the offsets loop (sa/loops.py) and the value-flow sources
+    of every rounded coordinate (sa/deps.py); loop form, temporaries and the double*/Vec2* view are irrelevant."""
+    from .. import loops, deps
+    nsinks = 0
+    for qn in ('gdstk::Polygon::to_gds', 'gdstk::Label::to_gds', 'gdstk::Reference::to_gds', 'gdstk::FlexPath::to_gds', 'gdstk::RobustPath::to_gds'):
         f = db.fn(qn)
-        t = norm(' '.join(x.text() for x in f.walk() if x.k == 'CallExpr' and x.callee == 'lround'))
-        ok = all(re.search(p, t) for p in pats)
-        loop = next((l for l in f.walk() if l.k == 'ForStmt' and l.child('init') is not None and 'offsets.count' in norm(l.child('init').text())), None)
-        ok = ok and loop is not None
-        # the element's closing record is written inside that loop (one element per offset)
-        end = [c for c in (loop.walk() if loop is not None else []) if c.k == 'CallExpr' and c.callee == 'fwrite' and 'buffer_end' in c.args[0].text()]
-        start = [c for c in (loop.walk() if loop is not None else []) if c.k == 'CallExpr' and c.callee == 'fwrite' and 'buffer_start' in c.args[0].text()]
-        ok = ok and len(end) == 1 and len(start) == 1
-        go = [c for c in f.walk() if c.k == 'CXXMemberCallExpr' and (c.callee or '').endswith('Repetition::get_offsets')]
-        ok = ok and len(go) == 1
-        if qn.endswith('Polygon::to_gds') or 'Path' in qn:
-            ox = [v for v in f.walk() if v.k == 'VarDecl' and v.n in ('offset_x', 'offset_y')]
-            ok = ok and len(ox) == 2 and all(norm(v.child('init').text()) == '(*(offset_p++))' for v in ox) and all(any(a is loop for a in v.ancestors()) for v in ox)
-        ctx.check(ok, 'R-DEP', '%s/offsets-reach-xy' % qn.replace('gdstk::', ''), f.loc(), 'one element per repetition offset is emitted and both offset components are added into every coordinate',
-                  'repetition offsets do not reach the emitted coordinates (or the element is not emitted once per offset)')
+        key = '%s/offsets-reach-xy' % qn.replace('gdstk::', '')
+        ak, L, lp, why = offsets_loop(f)
+        problems = [why] if why else []
+        # the element's header and ENDEL records are written once per offset
+        bufs = {}
+        for v in f.walk():
+            if v.k == 'VarDecl' and v.child('init') is not None and v.child('init').k == 'InitListExpr':
+                cvs = {c.cv for c in v.child('init').walk() if c.cv is not None}
+                if 0x1100 in cvs:
+                    bufs['v%d:%s' % (v.d, v.n)] = 'ENDEL'
+                elif cvs & (set(GDS_ELEMENT_HEADERS) | {0x0D02}):      # an element record (or, with a computed kind, its LAYER record)
+                    bufs['v%d:%s' % (v.d, v.n)] = 'header'
+        for kind in ('header', 'ENDEL'):
+            ws = [c for c in f.walk() if c.k == 'CallExpr' and c.callee == 'fwrite' and bufs.get(lvalue_key(_strip_casts(c.args[0]))) == kind]
+            if not ws:
+                raise AnalysisBroken('%s: no fwrite of the %s record found' % (qn, kind))
+            inl = [c for c in ws if any(a is L for a in c.ancestors())]
+            if kind == 'ENDEL' and not any(loops.unconditional_in(c, L) for c in inl):
+                problems.append('the ENDEL record is not written once per offset (inside the offsets loop at %s)' % L.loc())
+            if kind == 'header' and not inl:
+                problems.append('the element header is not written inside the offsets loop at %s' % L.loc())
+        # every rounded coordinate written inside the loop: same component of coordinate and offset, both under the same operators
+        D = deps.Deps(f)
+        seen = {'x': 0, 'y': 0}
+        for c in L.walk():
+            if c.k != 'CallExpr' or c.callee not in ('lround', 'llround'):
+                continue
+            src = D.sources(c.args[0])
+            off = {s: t for s, t in src.items() if s[0] == ak}
+            coord = {s: t for s, t in src.items() if s[0] != ak and s[1] in ('x', 'y', '?')}
+            if not off and not coord:
+                continue
+            nsinks += 1
+            comps = {s[1] for s in list(off) + list(coord)}
+            if coord and not off:
+                problems.append('%s: the coordinate %s is written without the repetition offset' % (c.loc(), sorted(pretty_key(s[0]) + '.' + s[1] for s in coord)))
+            elif len(comps) != 1 or '?' in comps:
+                problems.append('%s: mixes components: %s' % (c.loc(), sorted(pretty_key(s[0]) + '.' + str(s[1]) for s in list(off) + list(coord))))
+            else:
+                tags = {t for t in list(off.values()) + list(coord.values())}
+                if len(tags) != 1 or 'product' in next(iter(tags)) or any(x.startswith('call:') for x in next(iter(tags))):
+                    problems.append('%s: offset and coordinate are not combined by a plain sum before the common scaling (%s)' % (c.loc(), {pretty_key(s[0]): sorted(t) for s, t in list(off.items()) + list(coord.items())}))
+                else:
+                    seen[next(iter(comps))] += 1
+        if not problems and not (seen['x'] and seen['y']):
+            raise AnalysisBroken('%s: no rounded x / y coordinate with an offset found in the offsets loop (%s)' % (qn, seen))
+        ctx.check(not problems, 'R-DEP', key, f.loc(), 'one element per repetition offset is emitted and both offset components are added into every coordinate (%d x, %d y sinks)' % (seen['x'], seen['y']),
+                  'repetition offsets do not reach the emitted coordinates (or the element is not emitted once per offset): ' + '; '.join(problems[:3]))
+    ctx.require('R-DEP offset sinks', nsinks, 10)
 
 
 def check_aref(ctx, db):
